@@ -30,6 +30,18 @@ struct len { var f; }; struct SHOW { var f; };
 var Lenient = Cello(Lenient); var Le = Cello(Le); var Sortable = Cello(Sortable); var So = Cello(So); var Hashes = Cello(Hashes);
 var Has = Cello(Has); var C_ = Cello(C_); var C_Integer = Cello(C_Integer); var Ge = Cello(Ge); var Getter = Cello(Getter);
 var len_decoy = Cello(len); var SHOW = Cello(SHOW);
+/* a type that declares Size, Alloc, New, Current and Doc instances of its own: the functions that are handed the TYPE itself reach them */
+static long wr_calls[8]; static int wr_marker; extern var Wr;
+struct Wr { int64_t x; };
+static size_t Wr_Size(void) { wr_calls[0]++; return 40; }
+static var Wr_Alloc(void) { wr_calls[1]++; return header_init(calloc(1, sizeof(struct Header) + 40), Wr, AllocHeap); }
+static void Wr_Dealloc(var self) { wr_calls[2]++; free((char*)self - sizeof(struct Header)); }
+static void Wr_New(var self, var args) { wr_calls[3]++; }
+static void Wr_Del(var self) { wr_calls[4]++; }
+static var Wr_Current(void) { wr_calls[5]++; return &wr_marker; }
+static const char* Wr_Name(void) { wr_calls[6]++; return "WrDoc"; }
+var Wr = Cello(Wr, Instance(Size, Wr_Size), Instance(Alloc, Wr_Alloc, Wr_Dealloc), Instance(New, Wr_New, Wr_Del), Instance(Current, Wr_Current),
+  Instance(Doc, Wr_Name, NULL, NULL, NULL, NULL, NULL));
 static var* BT[NB]; static const char* BTN[NB];
 static var* CL[NC]; static const char* CLN[NC]; static int CLM[NC];     /* member counts */
 #define MAXRT 64
@@ -213,6 +225,20 @@ int main(int argc, char** argv) {
       HC_TRY(r = (cast(o, type_no(u)) == o) ? 1 : 0);
       ev_begin("cast"); ev_int("t", t); ev_int("u", u); ev_int("r", r); ev_str("exc", hc_exc);
       ev_int("own", type_no(t) == CastAny ? 1 : type_no(t) == CastNone ? 2 : 0); ev_end();       /* what the object's type declares for Cast */
+      continue;
+    }
+    if (hc_is(0, "wrappers")) {           /* the functions that take a TYPE (size, alloc, new, del, current, name): each goes through what that type declares */
+      long bad = 0; memset(wr_calls, 0, sizeof wr_calls);
+      HC_TRY(
+        if (size(Wr) != 40 || wr_calls[0] == 0) bad |= 1;
+        var o = new_raw(Wr);
+        if (wr_calls[1] != 1 || wr_calls[3] != 1 || type_of(o) != Wr) bad |= 2;
+        del_raw(o);
+        if (wr_calls[4] != 1 || wr_calls[2] != 1) bad |= 4;
+        if (current(Wr) != (var)&wr_marker || wr_calls[5] != 1) bad |= 8;
+        if (strcmp(name(Wr), "WrDoc") != 0 || wr_calls[6] == 0) bad |= 16;
+        if (size(Int) != sizeof(struct Int) || size(Wr) != 40) bad |= 32);
+      ev_begin("wrappers"); ev_int("bad", bad); ev_str("exc", hc_exc); ev_end();
       continue;
     }
     if (hc_is(0, "swaptypes")) {          /* swaptypes <t> <u> : a Type object is not a value that can be exchanged with another: refused, and every later
